@@ -132,14 +132,21 @@ fn reg_remove_step() {
 /// add_handlers(s, hs): the new handlers are served, everything else is unchanged.
 /// WHICH keys are added is concrete per harness (`mask`: bit i = URI i); the registry state, the
 /// service, the handler identities stay symbolic. (With a symbolic key set CBMC exceeds 20 GB.)
-fn add_step(mask: u8) {
+fn add_step(mask: u8, svc: Option<u8>) {
     // smaller symbolic state for this (heavier) operation: URIs 2 and 3 are unowned unless added by the call itself
     let mut a = any_abs();
     a.owner[2] = 3;
     a.owner[3] = 3;
     let st = build(&a);
-    let s: u8 = kani::any();
-    kani::assume(s < 3);
+    // the service is concrete where the harness says so (a symbolic service makes CBMC analyse three copies of the call)
+    let s: u8 = match svc {
+        Some(v) => v,
+        None => {
+            let v: u8 = kani::any();
+            kani::assume(v < 3);
+            v
+        },
+    };
     let nh: [u64; NK] = kani::any();
     let mut b = a;
     let mut hs: BTreeMap<HandlerKey, Arc<dyn OpaqueMessageHandler>> = BTreeMap::new();
@@ -178,13 +185,25 @@ fn add_step(mask: u8) {
 }
 macro_rules! add_harness {
     ($name:ident, $mask:expr) => {
+        add_harness!($name, $mask, None);
+    };
+    ($name:ident, $mask:expr, $svc:expr) => {
         #[kani::proof]
         #[kani::unwind(10)]
         fn $name() {
-            add_step($mask);
+            add_step($mask, $svc);
         }
     };
 }
+add_harness!(reg_add_k0_s0, 0b0001, Some(0));
+add_harness!(reg_add_k0_s1, 0b0001, Some(1));
+add_harness!(reg_add_k0_s2, 0b0001, Some(2));
+add_harness!(reg_add_k01_s0, 0b0011, Some(0));
+add_harness!(reg_add_k01_s1, 0b0011, Some(1));
+add_harness!(reg_add_k01_s2, 0b0011, Some(2));
+add_harness!(reg_add_k2_s1, 0b0100, Some(1));
+add_harness!(reg_add_k13_s1, 0b1010, Some(1));
+add_harness!(reg_add_none_s1, 0b0000, Some(1));
 add_harness!(reg_add_k0, 0b0001);
 add_harness!(reg_add_k2, 0b0100);
 add_harness!(reg_add_k01, 0b0011);
